@@ -24,6 +24,9 @@ pub struct SyncCfg {
     /// world changes prefer zero values / empty items (crc-neutral differences)
     #[serde(default)]
     pub zero_bias: bool,
+    /// the server sends the dedicated empty-snapshot message when nothing changed since the delta base
+    #[serde(default)]
+    pub empty_msgs: bool,
 }
 
 #[derive(Clone, Debug, Serialize, Deserialize, PartialEq)]
@@ -39,6 +42,8 @@ pub enum SyncOp {
     DeliverAck { pick: i32 },
     DropAck { pick: i32 },
     DupAck { pick: i32 },
+    /// the client starts over (`Manager::reset`, e.g. map change or reconnect): it forgets every snapshot
+    ClientReset,
 }
 
 type Key = (u8, u16); // (type index in the universe, id)
@@ -128,6 +133,7 @@ impl Engine for SyncEngine {
         let big = c.chance(1, 4); // large worlds -> multi-part snapshots
         // long stretch (> 100 ticks) in which no acknowledgement reaches the sender, after an initial acknowledged phase
         let blackout = !fault_free && c.chance(1, 12);
+        let client_resets = !fault_free && c.chance(1, 6);
         let cfg = SyncCfg {
             seed: c.next_u64(),
             first_tick: *c.pick(&[0i32, 1, 7, 1000, 3_000_000]),
@@ -135,6 +141,7 @@ impl Engine for SyncEngine {
             n_uuid: *c.pick(&[0u8, 1, 2, 2, 3, 5]),
             max_id: if big { c.range(40, 200) as u16 } else { *c.pick(&[1u16, 3, 8, 20, 65535]) },
             zero_bias: blackout || c.chance(1, 8),
+            empty_msgs: c.chance(1, 2),
         };
         let n_ticks = match c.below(10) {
             0..=3 => c.range(2, 8),
@@ -182,6 +189,9 @@ impl Engine for SyncEngine {
                 }
                 let pick = if reorder > 0 && s.chance(reorder, 1000) { s.below(16) as i32 - 8 } else { 0 };
                 ops.push(SyncOp::DeliverSnap { pick });
+            }
+            if client_resets && s.chance(1, 15) {
+                ops.push(SyncOp::ClientReset);
             }
             if !(ack_rare && s.chance(9, 10)) {
                 ops.push(SyncOp::ClientInput);
@@ -254,6 +264,7 @@ impl Engine for SyncEngine {
                     }
                     // --- the server's call order
                     let w2 = world.clone();
+                    let send_empty = cfg.empty_msgs;
                     let res = guard(|| {
                         let mut builder = sender.new_builder();
                         let delta_tick = sender.delta_tick().unwrap_or(-1);
@@ -270,7 +281,11 @@ impl Engine for SyncEngine {
                         delta_buf.reserve(64 * 1024);
                         with_packer(&mut delta_buf, |p| delta.write(object_size(cfg), p).map(|_| ())).expect("delta fits 64 KiB");
                         let mut out: Vec<SnapMsgBytes> = Vec::new();
-                        for m in delta_chunks(t, delta_tick, &delta_buf, crc) {
+                        // a server sends the dedicated empty message when nothing changed since the delta base
+                        // (decided on the real delta: no removed and no updated items, i.e. the three-zero header only)
+                        let unchanged = send_empty && delta_buf == [0u8, 0, 0];
+                        let payload: &[u8] = if unchanged { &[] } else { &delta_buf };
+                        for m in delta_chunks(t, delta_tick, payload, crc) {
                             let mut buf: Vec<u8> = Vec::with_capacity(1024);
                             let kind = match m {
                                 msg::SnapMsg::SnapEmpty(e) => {
@@ -306,6 +321,9 @@ impl Engine for SyncEngine {
                     if out.len() > 1 {
                         ctx.count("probe_multipart_snapshot");
                     }
+                    if out.len() == 1 && out[0].kind == 0 {
+                        ctx.count("probe_empty_snapshot_message");
+                    }
                     if delta_tick >= 0 {
                         ctx.count("probe_delta_against_acked");
                     }
@@ -320,6 +338,15 @@ impl Engine for SyncEngine {
                     let a = receiver.ack_tick().unwrap_or(-1);
                     ack_wire.push(a);
                     ctx.logf(|| format!("client input: ack {}", a));
+                }
+                SyncOp::ClientReset => {
+                    ctx.t(9);
+                    if let Err(p) = guard(|| receiver.reset()) {
+                        return Some(v("panic", &[("side", "receiver"), ("message", &p.msg_class()), ("file", &p.file_class())], format!("Manager::reset panicked: {} at {}:{}", p.msg, p.file, p.line)));
+                    }
+                    ctx.count("fault_client_reset");
+                    ctx.fault_inflight = true;
+                    ctx.logf(|| "client reset (forgets every snapshot)".into());
                 }
                 SyncOp::DropSnap { pick } => {
                     ctx.t(3);
@@ -545,8 +572,8 @@ impl Engine for SyncEngine {
             ],
             real: vec!["snapshot::Storage", "snapshot::snap::{Builder,Snap,Delta,delta_chunks}", "snapshot::Manager", "snapshot::DeltaReceiver", "gamenet_snap message codecs", "packer"],
             stub: vec!["connection layer (two simulated lossy links)", "game world (model)"],
-            required_probes: vec!["probe_snapshot_accepted", "probe_multipart_snapshot", "probe_delta_against_acked", "probe_accepted_with_uuid_items", "probe_ack_for_dropped_snapshot", "probe_receiver_error"],
-            fault_kinds: vec!["fault_snap_loss", "fault_snap_duplication", "fault_snap_reorder", "fault_ack_loss", "fault_ack_duplication", "fault_ack_reorder"],
+            required_probes: vec!["probe_snapshot_accepted", "probe_multipart_snapshot", "probe_delta_against_acked", "probe_accepted_with_uuid_items", "probe_ack_for_dropped_snapshot", "probe_receiver_error", "probe_empty_snapshot_message"],
+            fault_kinds: vec!["fault_snap_loss", "fault_snap_duplication", "fault_snap_reorder", "fault_ack_loss", "fault_ack_duplication", "fault_ack_reorder", "fault_client_reset"],
         }
     }
 }
